@@ -221,7 +221,11 @@ def check_trace_acd(case, res, rep, lean_drive):
                 scale_o = 1e-7 * (1 + max(abs(t) for t in objs if np.isfinite(t)) if any(np.isfinite(t) for t in objs) else 1.0)
                 bad_o = [k for k in range(2) if not ((np.isinf(io[k]) and np.isinf(objs[k])) or abs(io[k] - objs[k]) <= scale_o
                                                      * max(1.0, float(np.max(np.abs(ev["_anderson"]["C"]))))
-                                                     or (bound_tie and np.isinf(io[k]) != np.isinf(objs[k])))]
+                                                     or (bound_tie and np.isinf(io[k]) != np.isinf(objs[k]))
+                                                     # exp() overflow in the Float evaluation of the model (the code computes
+                                                     # the logistic loss in a stable form): overflow is not modelled
+                                                     or (np.isinf(objs[k]) and np.isfinite(io[k]) and case.df.kind == "logistic"
+                                                         and float(np.max(np.abs(ev["Xw_acc"]))) > 500))]
                 if bad_o:
                     rep.disagree("S:accept-objectives", line[:300], io, objs, dict(sig0, site="AndersonCD._solve:accept"),
                                  case=case.describe())
